@@ -558,6 +558,37 @@ def compile_basic_annotation(compiler, expr, root, target, ann):
     return compile_assign(compiler, ann, target, None)
 
 
+def _stored_only_at_exits(stmts, temps):
+    """Check that each assignment to one of the temporary variables
+    `temps` in `stmts` is the last thing its control path executes."""
+
+    def exits(stmts):
+        # The statements that can be the last one executed.
+        if not stmts:
+            return
+        last = stmts[-1]
+        if isinstance(last, ast.If):
+            yield from exits(last.body)
+            yield from exits(last.orelse)
+        elif isinstance(last, (ast.Try, getattr(ast, "TryStar", ast.Try))) and not last.finalbody:
+            yield from exits(last.orelse or last.body)
+            for handler in last.handlers:
+                yield from exits(handler.body)
+        else:
+            yield last
+
+    at_exits = {
+        id(t)
+        for stmt in exits(stmts)
+        if isinstance(stmt, ast.Assign)
+        for t in stmt.targets}
+    return all(
+        id(node) in at_exits
+        for stmt in stmts
+        for node in ast.walk(stmt)
+        if any(node is v for v in temps) and isinstance(node.ctx, ast.Store))
+
+
 def can_rename_temp_variables(compiler, result, target):
     """Check whether `result`'s temporary variables can be renamed to
     `target` instead of assigning the temporary to `target` afterwards.
@@ -570,6 +601,13 @@ def can_rename_temp_variables(compiler, result, target):
         return False
     if not any(isinstance(v, ast.Name) and isinstance(v.ctx, ast.Store) for v in temps):
         return True
+    if not _stored_only_at_exits(result.stmts, temps):
+        # An exception could leave the statements after the temporary
+        # has been assigned (e.g., from a `finally` clause, a later
+        # operand of `or`, or a context manager's exit). The target
+        # must keep its old value then, as the assignment never
+        # happened.
+        return False
     probe = asty.Name(target, id=mangle(compiler._nonconst(target)), ctx=ast.Store())
     compiler.scope.assign(probe)
     return not any(
